@@ -151,6 +151,12 @@ func fixedScriptCorpus() []scriptCase {
 		{kind: "script", scenario: "block-function-kept-for-with-but-hoisted-var-renamed",
 			src:  progPrelude + globalsPrelude() + "{ function y1() {} with ({}) { y1; } }\n$p(\"r\", typeof y1);\nvar y1 = 1;\n",
 			opts: api.TransformOptions{Loader: api.LoaderJS, MinifyIdentifiers: true, Format: api.FormatIIFE, LogLevel: api.LogLevelSilent}, optDesc: "minify-identifiers format=iife"},
+		{kind: "script", scenario: "var-in-with-pin-lost-on-double-merge",
+			src:  progPrelude + globalsPrelude() + "$g.$o2 = { v1: 1 };\n(function () {\n  for (let x1 = 0; x1 < 1; x1++) { with ($o2) { var v1 = 2; } var v1; }\n  var v1;\n  $p(\"r\", v1, $o2.v1);\n})();\n",
+			opts: api.TransformOptions{Loader: api.LoaderJS, MinifyIdentifiers: true, LogLevel: api.LogLevelSilent}, optDesc: "minify-identifiers"},
+		{kind: "script", scenario: "jsx-capital-lost-when-block-var-merges-into-parameter",
+			src:  progPrelude + globalsPrelude() + "function f1(A1) { { var A1 = \"dTag\"; return <A1 x={1} />; } }\n$p(\"r\", f1(\"p\"));\n",
+			opts: jsxOpts, optDesc: "minify-identifiers jsx=preserve"},
 		{kind: "script", scenario: "with-object-captures-minified-keep-names-helper",
 			src:  progPrelude + globalsPrelude() + "with ({ a: 1, b: 1, c: 1, d: 1, e: 1, f: 1, g: 1, h: 1, i: 1, j: 1, k: 1, l: 1, m: 1, n: 1, o: 1, p: 1, q: 1, r: 1, s: 1, t: 1, u: 1, v: 1, w: 1, x: 1, y: 1, z: 1 }) {\n  class K {}\n  $p(\"r\", typeof K);\n}\n",
 			opts: api.TransformOptions{Loader: api.LoaderJS, KeepNames: true, MinifyIdentifiers: true, LogLevel: api.LogLevelSilent}, optDesc: "keep-names minify-identifiers"},
